@@ -66,4 +66,11 @@ CHECKS = {
   "text": "Static: all lists of <=2 (quick) / <=3 rules from {block, exception, important, csp, csp-exception} x {untagged, t1, t2} plus fusable near-twins, under every enabled-tag subset, on optimised and unoptimised engines. Dynamic: every history of 4 (quick) / 5 operations over use/enable/disable/serialize/deserialize/discard/query (Engine; two initial lists, one without any tagged blocking rule) and add_filter/optimize (Blocker); the enabled set (tag_exists / tags_enabled) is compared after every operation and the battery at every query. TLC checks the action property TagAlgebra (use = assignment, enable = union, disable = difference, everything else leaves the set unchanged).",
   "note": TB + "tag+redirect and tag+removeparam are documented as unsupported and excluded.",
  },
+
+ "C08": {
+  "level": "model_checking",
+  "technique": "TLC-enumerated rule lists (one rule per shape) with Ideal verdicts; each executed on an engine and on a second engine loaded from the first one's serialized image; the wire model names the fields the v0 format drops",
+  "text": "TLC enumerates all lists of <=2 (quick) / <=3 rules from 29 rules covering every rule shape (all anchors and regex forms, every option bit, include/exclude domain lists, tags on block/exception/important/csp, redirect with priority, redirect-rule, redirect exception, csp, blanket csp exception, removeparam, scheme-folded, badfilter, tokenless multi-domain) x tag sets; the reloaded engine (tags set before loading) must give an Ideal verdict and the same answers as the original for every request. The wire layer of the spec predicts the reloaded behaviour when removeparam rules are present (open finding wireDropsRemoveparam).",
+  "note": TB + "Network and CSP queries only so far; the cosmetic half of the image (hostname rule db, class/id stores, scriptlet permissions) is covered when the cosmetic universes (C16-C18) run with the reload flag.",
+ },
 }
